@@ -15,10 +15,21 @@ Streams (correspondence = real code vs Lean model `Model/ObjModel` through Drive
   hasiter    DirectObjectAccess.has_iter vs hasIter (answer and: nothing is called)
   pyiter     CompiledValue.py__iter__ vs compiledPyIter ; bool: CompiledValue.py__bool__ {safe, unsafe} and
              DirectObjectAccess.py__bool__() (default = safe) vs pyBool
+  builtinbool access._has_builtin_bool(obj) vs hasBuiltinBoolMro on the class dictionaries of type(obj).__mro__
+             (per class: which of __bool__/__len__ it stores, classified) - container zoo + generated worlds
+             of classes with SEVERAL bases (gen.c13_graphs.gen_proto_mro: builtin container / number +
+             user mixins in every order, triples, grandchildren, own redefinitions)
+  boolmro    CompiledValue.py__bool__ {safe, unsafe} / DirectObjectAccess.py__bool__() vs pyBoolMro (the walk
+             over the MRO, CPython's bool(): __bool__ anywhere along the MRO first, then __len__)
+             + all item / iteration / bool unit streams above on the objects of those worlds
   e2e_attr   Interpreter(`obj.name`).infer(): set of user __get__ calls vs filterGetInfer trace
 Direct oracle (never the model)
   oracle     generated object graphs x expressions x {complete, infer, goto, help, get_signatures}
              x {safe, unsafe}: in safe mode no counter of a forbidden kind may move
+             flavor mro: the worlds of classes with several bases x queries whose inference needs the truth
+             value of the object (`q = obj or 1`, `and`, `if obj: ... else: ...`, `not obj`, ternary, while,
+             elif; complete on `q.`, infer/goto/help on `q`) and the reaching expressions, object named
+             directly or through box.a['k'][0]['name']
   dir        names offered after `obj.` >= dir(obj), both modes
   inferpath  infer on plain attribute / builtin container item paths = class of the stored object
   dunder     properties whose *name* is one jedi / inspect read themselves (__doc__, __module__, ...)
@@ -39,15 +50,22 @@ MANIFEST = dict(
          '__get__ calls), of jedi\'s getattr_static backport, is_allowed_getattr, the CompiledValueFilter._get '
          'decision table, values(), py__simple_getitem__/py__iter__list/has_iter/py__bool__ and the static '
          'special-method lookup they use; type lists, guard expressions and lookup orders are translator-extracted, '
-         'the shape of the hand-transcribed functions is translator-checked. Theorems (all FULL): the static lookup '
+         'the shape of the hand-transcribed functions is translator-checked. Theorems (all FULL except bool_mro_refines_flat_partial, whose hypothesis is a well-formedness condition of the '
+         'encoding, with counter-witness): the static lookup '
          'returns stored entries only and chooses the entry getattr chooses (instances and classes, including a '
          'metaclass data descriptor shadowing a class attribute); safe mode never produces a real name for a '
          'user-__get__ attribute of an instance, of a class/bases or of the metaclass; item access / py__iter__list '
          'only on listed builtin containers; has_iter + py__iter__list run no user code at all; safe py__bool__ '
-         'calls bool(obj) only when a builtin slot wrapper (or nothing) decides; names offered = dir(obj) exactly. '
+         'calls bool(obj) only when a builtin slot wrapper (or nothing) decides - also stated over the class '
+         'dictionaries of the whole MRO (hasBuiltinBoolMro / pyBoolMro: any number of bases in any order; the '
+         'nesting of the two loops of _has_builtin_bool and the order of the names are translator-extracted; the '
+         'classes-outer walk has a kernel-checked counter-witness, class R(list, Mixin) with Mixin.__bool__; '
+         'the MRO level refines the flattened one); names offered = dir(obj) exactly. '
          'The former counter-witness inputs are kernel-checked witnesses of the repaired behaviour. Tie: translator '
-         '+ 13 correspondence streams on generated live object graphs + direct oracle with counters inside every '
-         'user special method over all Interpreter query methods x {safe, unsafe}; the repaired defects are '
+         '+ 15 correspondence streams on generated live object graphs and on generated worlds of classes with several '
+         'bases (builtin container + mixins, every MRO order) + direct oracle with counters inside every '
+         'user special method over all Interpreter query methods x {safe, unsafe}, including truth-value queries '
+         '(or / and / if / not / while) on those worlds; the repaired defects are '
          'deterministic regression inputs (corpus/C13).',
     note='Modelled not verified: CPython descriptor protocol (validated by stream getattr), __getattribute__/'
          '__getattr__/__dir__/__class__ properties (outside the trace alphabet; counted by the oracle), metaclass '
@@ -445,11 +463,15 @@ conts = {
 '''
 
 
-def stream_containers(ctx, env, rec, reqs, cases, reg):
+def stream_containers(ctx, env, rec, reqs, cases, reg, conts=None, extra=None):
+    """unit streams on a dictionary label -> live object: the fixed container zoo (default) or the
+    objects of a generated world (`extra` = what has to be part of the case to rebuild it)"""
     from jedi.inference.compiled.access import DirectObjectAccess
+    from jedi.inference.compiled import access as access_mod
     from jedi.inference.compiled import mixed
-    ns = G.build(CONTAINER_SRC, rec)
-    conts = ns['conts']
+    if conts is None:
+        ns = G.build(CONTAINER_SRC, rec)
+        conts = ns['conts']
 
     class FakeTree:
         inference_state = None
@@ -459,7 +481,8 @@ def stream_containers(ctx, env, rec, reqs, cases, reg):
 
     for label, obj in conts.items():
         ty = G.describe_ty(obj, reg)
-        base = {'container': label}
+        base = dict(extra or {}, container=label)
+        mro_slots = G.describe_mro_slots(type(obj))
         proto = lambda evs: [k for k, o, s in evs if k in FORBIDDEN]   # noqa: E731
         for safe in (True, False):
             st = env.state(not safe)
@@ -539,10 +562,14 @@ def stream_containers(ctx, env, rec, reqs, cases, reg):
             reqs.append({'op': 'bool', 'ty': ty, 'safe': not unsafe})
             # safe mode: every forbidden counter counts; unsafe mode: the model's alphabet for bool(obj)
             # is __bool__ / __len__ (a property stored under those names runs as well, unmodelled)
-            cases.append(('bool', dict(base, unsafe=unsafe, via='CompiledValue.py__bool__'),
-                          {'reached': res is not None, 'result': repr(res),
-                           'events': [k if k != 'property' else '__get__' for k in proto(rec.take())
-                                      if not unsafe or k in ('__bool__', '__len__')]}))
+            impl = {'reached': res is not None, 'result': repr(res),
+                    'events': [k if k != 'property' else '__get__' for k in proto(rec.take())
+                               if not unsafe or k in ('__bool__', '__len__')]}
+            cases.append(('bool', dict(base, unsafe=unsafe, via='CompiledValue.py__bool__'), impl))
+            # the same call against the model of the walk over the class dictionaries of the MRO
+            reqs.append({'op': 'boolmro', 'mro': mro_slots, 'safe': not unsafe})
+            cases.append(('boolmro', dict(base, unsafe=unsafe, via='CompiledValue.py__bool__',
+                                          mro=[c.__name__ for c in type(obj).__mro__]), impl))
         # the access method itself: its default must be the safe behaviour
         rec.reset()
         res = 'raised'
@@ -551,9 +578,29 @@ def stream_containers(ctx, env, rec, reqs, cases, reg):
         except Exception as e:
             ctx.count('raised', (label,), nontrivial=False, bucket='py__bool__:%s@%s' % common.exc_site(e))
         reqs.append({'op': 'bool', 'ty': ty, 'safe': True})
-        cases.append(('bool', dict(base, unsafe=False, via='DirectObjectAccess.py__bool__()'),
-                      {'reached': res is not None, 'result': repr(res),
-                       'events': [k if k != 'property' else '__get__' for k in proto(rec.take())]}))
+        impl = {'reached': res is not None, 'result': repr(res),
+                'events': [k if k != 'property' else '__get__' for k in proto(rec.take())]}
+        cases.append(('bool', dict(base, unsafe=False, via='DirectObjectAccess.py__bool__()'), impl))
+        reqs.append({'op': 'boolmro', 'mro': mro_slots, 'safe': True})
+        cases.append(('boolmro', dict(base, unsafe=False, via='DirectObjectAccess.py__bool__()',
+                                      mro=[c.__name__ for c in type(obj).__mro__]), impl))
+        # the guard itself: _has_builtin_bool(obj) vs hasBuiltinBoolMro; what bool(obj) really runs is
+        # measured by the harness (unsafe call) so that the failing-input search can judge the answer
+        rec.reset()
+        res = 'raised'
+        try:
+            res = access_mod._has_builtin_bool(obj)
+        except Exception as e:
+            ctx.count('raised', (label,), nontrivial=False, bucket='_has_builtin_bool:%s@%s' % common.exc_site(e))
+        moved = proto(rec.take())
+        try:
+            bool(obj)
+        except Exception:
+            pass
+        runs = [k for k in proto(rec.take()) if k in ('__bool__', '__len__')]
+        reqs.append({'op': 'builtinboolmro', 'mro': mro_slots})
+        cases.append(('builtinbool', dict(base, mro=[c.__name__ for c in type(obj).__mro__]),
+                      {'res': res, 'moved': moved, 'bool_runs': runs, 'safe_events': impl['events']}))
 
 
 def vars_lookup(t, name):
@@ -715,6 +762,88 @@ def stream_oracle(ctx, env, rec, reqs, cases, src, info, ns, reg, rng, flavor, n
                                  'unsafe': unsafe, 'isInstance': False, 'inDir': True, 'dynHas': False,
                                  'annValues': av})
                     cases.append(('e2e_attr', case, {'trace_set': tr}))
+    env.restore()
+
+
+# ------------------------------------------------------------------ classes with several bases
+
+# queries whose inference needs the truth value of the object: text up to the name that is asked
+# (complete() is asked on text + '.', infer / goto / help on the text itself)
+TRUTH_FORMS = [
+    ('or', 'q = %s or 1\nq'), ('and', 'q = %s and 1\nq'),
+    ('if-else', 'if %s:\n    w = 1\nelse:\n    w = ""\nw'), ('if', 'if %s:\n    q = 1\nq'),
+    ('not', 'q = not %s\nq'),
+]
+TRUTH_FORMS_MORE = [
+    ('ternary', 'w = 1 if %s else ""\nw'), ('while', 'while %s:\n    w = 1\n    break\nelse:\n    w = ""\nw'),
+    ('or-paren', '(%s or 1)'), ('and-paren', '(%s and 1)'), ('elif', 'if 0:\n    w = 1\nelif %s:\n    w = ""\nw'),
+]
+# the other expressions reaching the object
+REACH_FORMS = [
+    ('dot', '%s.'), ('name', '%s'), ('item', '%s[0].'), ('call', '%s().'), ('callsig', '%s('),
+    ('for', 'for q in %s:\n    q.'), ('comp', '[q for q in %s]'), ('unpack', 'q, = %s\nq.'),
+]
+
+
+def stream_protomro(ctx, env, rec, reqs, cases, reg, rng):
+    """generated worlds of classes with several bases (builtin container / number + user mixins, every
+    order): unit streams on every object, then the direct oracle over Interpreter queries"""
+    src, info = G.gen_proto_mro(rng, n_triples=ctx.size(6, 24), n_deep=ctx.size(4, 10))
+    ns = G.build(src, rec, 'exec')
+    objs = info['objs']
+    stream_containers(ctx, env, rec, reqs, cases, reg, conts={o['name']: ns[o['name']] for o in objs},
+                      extra={'source': src})
+    names = {k: v for k, v in ns.items() if not k.startswith('_') and k not in ('ND', 'DD', 'DDel', 'SO', 'mkprop')}
+    pairs = [o for o in objs if len(o['bases']) == 2 and o['cls'].startswith('P')]
+    rest = [o for o in objs if o not in pairs]
+    picked = pairs + rng.sample(rest, min(len(rest), ctx.size(8, len(rest))))
+    for o in picked:
+        label = o['name']
+        if ctx.quick:
+            truth = rng.sample(TRUTH_FORMS, 2) + rng.sample(TRUTH_FORMS_MORE, 1 if rng.random() < 0.5 else 0)
+            others = rng.sample(REACH_FORMS, 1)
+        else:
+            truth = TRUTH_FORMS + TRUTH_FORMS_MORE
+            others = rng.sample(REACH_FORMS, 3)
+        for kind, form in truth + others:
+            reach = label if rng.random() < 0.7 else "box.a['k'][0][%r]" % label
+            text = form % reach
+            if (kind, form) in others:
+                plan = [(text, 'complete' if text.endswith('.') else 'infer'),
+                        (text, rng.choice([m for m in METHODS if m != 'complete']))]
+            else:
+                plan = [(text + '.', 'complete')]
+                plan += [(text, m) for m in rng.sample(['infer', 'goto', 'help'], ctx.size(1, 3))]
+            for unsafe in (False, True):
+                env.set(unsafe)
+                for expr, method in plan:
+                    case = {'source': src, 'flavor': 'mro', 'expr': expr, 'method': method, 'unsafe': unsafe,
+                            'target': label, 'target_class': None, 'target_kind': 'instance',
+                            'bases': o['bases']}
+                    rec.reset()
+                    err = res = None
+                    try:
+                        res = run_query(expr, [names], method)
+                    except Exception as e:
+                        err = e
+                    events = rec.take()
+                    hist = judge_events(ctx, rec, events, ns, None, case, unsafe)
+                    if err is not None:
+                        ctx.count('raised', (expr, method, unsafe), nontrivial=False,
+                                  bucket='%s:%s@%s' % ((kind,) + common.exc_site(err)))
+                    ctx.count('oracle', (src, expr, method, unsafe), nontrivial=bool(events) or bool(res),
+                              bucket='mro/%s/%s/%s' % (kind, method, 'unsafe' if unsafe else 'safe'),
+                              sample={'expr': expr, 'method': method, 'unsafe': unsafe, 'flavor': 'mro',
+                                      'bases': o['bases'], 'counters': hist,
+                                      'n_results': len(res) if res is not None else None})
+                    if kind == 'dot' and method == 'complete' and err is None and reach == label:
+                        missing = sorted(set(dir(ns[label])) - {c.name for c in res})
+                        ctx.count('dir', (src, expr, unsafe), nontrivial=True, bucket='mro/instance')
+                        if missing:
+                            ctx.fail('dir', 'names of dir(obj) are not offered after `obj.`', case,
+                                     expected={'dir_subset_of_completions': True},
+                                     observed={'missing': missing[:20], 'n_offered': len(res)},
+                                     how='jedi.Interpreter(expr, [ns]).complete() names vs dir(ns[target])')
     env.restore()
 
 
@@ -968,6 +1097,17 @@ def compare(ctx, cases, answers):
         elif stream == 'hasiter':
             ok = ans['result'] == impl['result'] and ans['events'] == impl['events']
             bucket = '%s/%s' % (impl['result'], ','.join(impl['events']) or '-')
+        elif stream == 'builtinbool':
+            ok = ans == impl['res'] and not impl['moved']
+            nontrivial = any(len(c) > 0 for c in case['mro']) and len(case['mro']) > 2
+            bucket = '%s/bases=%d/bool() runs %s' % (impl['res'], len(case['mro']) - 2,
+                                                      ','.join(impl['bool_runs']) or '-')
+        elif stream == 'boolmro':
+            ok = ans['reached'] == impl['reached'] and ans['events'] == impl['events']
+            nontrivial = len(case['mro']) > 2
+            bucket = '%s/%s/%s/mro=%d' % ('unsafe' if case['unsafe'] else 'safe',
+                                         'reached' if impl['reached'] else 'refused',
+                                         ','.join(impl['events']) or '-', min(len(case['mro']), 5))
         elif stream == 'bool':
             ok = ans['reached'] == impl['reached'] and ans['events'] == impl['events']
             bucket = '%s/%s/%s' % ('unsafe' if case['unsafe'] else 'safe',
@@ -1016,7 +1156,15 @@ def search_failing_input(ctx, stream, case, impl, ans):
         if impl['events']:
             ctx.fail(stream, 'safe mode item access executed a user __getitem__', flat, expected=[],
                      observed=impl, how=how)
-    elif stream in ('iterlist', 'hasiter', 'pyiter', 'bool'):
+    elif stream == 'builtinbool':
+        # the property on this input: the guard may say "only builtin code" only if bool(obj) runs no
+        # user __bool__ / __len__ (measured), and the safe py__bool__() of the real code ran none
+        if (impl['res'] is True and impl['bool_runs']) or impl['safe_events'] or impl['moved']:
+            ctx.fail(stream, '_has_builtin_bool(obj) answers True for an object whose bool() runs a user-defined '
+                     'special method / safe py__bool__ executed it', flat, expected={'_has_builtin_bool': False},
+                     observed=dict(impl, counter=(impl['bool_runs'] + impl['safe_events'] + impl['moved'])[0]),
+                     how=how)
+    elif stream in ('iterlist', 'hasiter', 'pyiter', 'bool', 'boolmro'):
         if impl['events'] and not case.get('unsafe', False):
             ctx.fail(stream, 'iteration / truth value executed a user special method', flat, expected=[],
                      observed=dict(impl, counter=impl['events'][0]), how=how)
@@ -1060,6 +1208,9 @@ def run(ctx):
             flavor = 'file' if gi % 3 == 2 else 'exec'
             ns = G.build(src, rec, flavor, tmpdir)
             stream_oracle(ctx, env, rec, reqs, cases, src, info, ns, reg, rng, flavor, ctx.size(22, 60))
+        mrng = ctx.subrng('protomro')
+        for gi in range(ctx.size(1, 4)):
+            stream_protomro(ctx, env, rec, reqs, cases, reg, mrng)
         stream_inferpath(ctx, env, rec, ctx.size(120, 1500))
         stream_dunder(ctx, env, rec)
     finally:
@@ -1091,6 +1242,8 @@ def run(ctx):
         'None / other) is classified by the harness from the class dictionaries; special methods of builtin '
         'types are slot wrappers or absent (Ty.slot of `.builtin`): sampled by streams bool / hasiter on the '
         'container zoo',
+        'CPython bool(obj) on a class with several bases: __bool__ anywhere along the MRO, only then __len__ '
+        '(boolCallEventsMro): sampled by stream boolmro in unsafe mode (the counters of the real bool(obj))',
     ]
 
 
